@@ -21,7 +21,8 @@ pub struct Spec {
     pub sends: usize,
     pub polls: usize,
     /// create one more listener first and drop it before the run: the remaining ids are not 0..L
-    pub non_dense: bool,
+    /// 1: as above; 2: create two extra listeners first and drop them newest-first (ids come back out of order)
+    pub non_dense: u8,
 }
 
 /// (listener, value, address of the payload) of every delivery -- kept outside the observation log because addresses
@@ -55,11 +56,11 @@ where C: FullDuplexMultiChannel<ItemType = u32> + Send + Sync + 'static,
     let chan: Arc<C> = C::new(name.clone());
     if spec.kind == MultiKind::ML { cleanup_mmap(&name) }
     let mut bodies: Vec<mcx::Body> = Vec::new();
-    let dropped_first = if spec.non_dense { Some(chan.create_stream_for_new_events()) } else { None };
+    let mut dropped_first: Vec<_> = (0..spec.non_dense).map(|_| chan.create_stream_for_new_events()).collect();
     let mut slots = Vec::new();
     let mut streams = Vec::new();
     for _ in 0..spec.listeners { streams.push(chan.create_stream_for_new_events().0) }
-    drop(dropped_first);
+    while let Some(d) = dropped_first.pop() { drop(d) }
     for p in 0..spec.producers {
         let chan = chan.clone();
         let (ep, sends) = (spec.eps[p % spec.eps.len()], spec.sends);
@@ -184,14 +185,15 @@ pub fn scenarios(tier: Tier) -> Vec<ScenarioDef> {
         if kind.has_reserve() { ep_sets.push(("reserve", vec![Ep::Reserve])); ep_sets.push(("mixed", vec![Ep::Send, Ep::Reserve])) }
         if matches!(kind, MultiKind::AA | MultiKind::AF | MultiKind::AC) { ep_sets.push(("send_derived", vec![Ep::SendDerived])); ep_sets.push(("mixed", vec![Ep::SendDerived, Ep::SendWith])) }
         for (ep_name, eps) in ep_sets {
-            for (l, non_dense) in [(1usize, false), (2, false), (1, true)] {
+            for (l, non_dense) in [(1usize, 0u8), (2, 0), (1, 1), (1, 2), (2, 2)] {
                 let mut rung_idx = 0;
                 for &(p, sends, polls) in &ladder {
-                    if tier == Tier::Quick && kind == MultiKind::ML && (ep_name != "send" || non_dense) { continue }
-                    if non_dense && tier == Tier::Quick && p * sends > 2 { continue }
-                    let family = format!("multi-{}/{}/L{l}{}", kind.name(), ep_name, if non_dense { "-nondense" } else { "" });
+                    if tier == Tier::Quick && kind == MultiKind::ML && (ep_name != "send" && ep_name != "send_with" || non_dense > 0) { continue }
+                    if non_dense > 0 && tier == Tier::Quick && p * sends > 2 { continue }
+                    if non_dense == 2 && tier == Tier::Quick && ep_name != "send" { continue }
+                    let family = format!("multi-{}/{}/L{l}{}", kind.name(), ep_name, match non_dense { 0 => "", 1 => "-nondense", _ => "-nondense2" });
                     let rung = format!("P{p}-E{sends}-N{polls}");
-                    let spec = Spec { kind, eps: eps.clone(), b: 4, m: 2, listeners: l, producers: p, sends, polls, non_dense };
+                    let spec = Spec { kind, eps: eps.clone(), b: 4, m: if non_dense == 2 { 4 } else { 2 }, listeners: l, producers: p, sends, polls, non_dense };
                     let threads = p + l;
                     let bound = match tier { Tier::Quick => if threads <= 2 { 3 } else { 2 }, Tier::Thorough => if threads <= 2 { 4 } else if threads == 3 { 3 } else { 2 } };
                     defs.push(ScenarioDef { prop: "C03", family, rung, rung_idx, max_bound: bound,
